@@ -765,7 +765,65 @@ func runLayout(r *core.Run) {
 
 // --------------------------------------------------------------- R-READPOS
 
+// binaryReaderRoles: the position field is the integer field that Pos() returns; the error field is the field of type error.
+func binaryReaderRoles(r *core.Run) (pos, errf string) {
+	if pf := r.Prog.SSAFunc("", "BinaryReader", "Pos"); pf != nil {
+		if ret := singleReturn(pf); ret != nil && len(ret.Results) == 1 {
+			if u, ok := stripConv(ret.Results[0]).(*ssa.UnOp); ok && u.Op == token.MUL {
+				if fa, ok := u.X.(*ssa.FieldAddr); ok {
+					pos = fieldName(fa.X.Type(), fa.Field)
+				}
+			}
+		}
+		if st, ok := derefType(pf.Params[0].Type()).Underlying().(*types.Struct); ok {
+			for i := 0; i < st.NumFields(); i++ {
+				if types.Identical(st.Field(i).Type(), types.Universe.Lookup("error").Type()) {
+					errf = st.Field(i).Name()
+				}
+			}
+		}
+	}
+	return
+}
+
+// unitSite: an instruction of a method unit together with the chain of call sites (outermost first) that leads from
+// the unit's entry method to the function containing it.
+type unitSite struct {
+	in    ssa.Instruction
+	chain []*ssa.Call
+}
+
+// methodUnit: fn and the methods of the same receiver type it calls (transitively, depth <= 3), flattened.
+func methodUnit(fn *ssa.Function) []unitSite {
+	var out []unitSite
+	var walk func(f *ssa.Function, chain []*ssa.Call, depth int)
+	walk = func(f *ssa.Function, chain []*ssa.Call, depth int) {
+		for _, b := range f.Blocks {
+			for _, in := range b.Instrs {
+				out = append(out, unitSite{in, chain})
+				if c, ok := in.(*ssa.Call); ok && depth < 3 {
+					g := c.Call.StaticCallee()
+					if g != nil && !c.Call.IsInvoke() && len(g.Blocks) > 0 && g.Signature.Recv() != nil && recvName(g) == recvName(fn) && len(c.Call.Args) > 0 && c.Call.Args[0] == ssa.Value(f.Params[0]) {
+						walk(g, append(append([]*ssa.Call{}, chain...), c), depth+1)
+					}
+				}
+			}
+		}
+	}
+	walk(fn, nil, 0)
+	return out
+}
+
 func runReadPos(r *core.Run) {
+	posF, errF := binaryReaderRoles(r)
+	if posF == "" || errF == "" {
+		r.BrokenAnchor("parse.BinaryReader position / error fields (Pos() returns a field; one field of type error)")
+		return
+	}
+	isField := func(addr ssa.Value, name string) bool {
+		fa, ok := addr.(*ssa.FieldAddr)
+		return ok && fieldName(fa.X.Type(), fa.Field) == name && recvNameOfType(fa.X.Type()) == "BinaryReader"
+	}
 	for _, tc := range []struct {
 		name    string
 		advance bool
@@ -777,61 +835,134 @@ func runReadPos(r *core.Run) {
 			continue
 		}
 		recv := fn.Params[0].Name()
+		unit := methodUnit(fn)
+		// the one call of the back end
 		var bytesCall *ssa.Call
-		for _, b := range fn.Blocks {
-			for _, in := range b.Instrs {
-				if c, ok := in.(*ssa.Call); ok && c.Call.IsInvoke() && c.Call.Method.Name() == "Bytes" {
-					bytesCall = c
-				}
+		var bytesChain []*ssa.Call
+		nb := 0
+		for _, u := range unit {
+			if c, ok := u.in.(*ssa.Call); ok && c.Call.IsInvoke() && c.Call.Method.Name() == "Bytes" {
+				bytesCall, bytesChain = c, u.chain
+				nb++
 			}
 		}
-		if bytesCall == nil {
-			r.Unknown(tc.name+" shape", fn.Pos(), "no call to IBinaryReader.Bytes")
+		if nb != 1 {
+			r.Unknown(tc.name+" shape", fn.Pos(), fmt.Sprintf("expected one call of the back end's Bytes in %s and the methods it uses, found %d", tc.name, nb))
 			continue
 		}
-		// offset argument
-		offArg := linOf(bytesCall.Call.Args[2])
+		// offset argument, in the terms of the entry method
+		offV, left := valueThrough(bytesCall.Call.Args[2], bytesChain)
+		offArg := linOf(offV)
+		inEntry := left == 0
 		if tc.name == "ReadAt" {
-			r.Check(offArg.equal(linAtom(fn.Params[2].Name())), "ReadAt reads at off", bytesCall.Pos(), "", "ReadAt does not pass its off argument to Bytes")
+			r.Check(inEntry && offArg.equal(linAtom(fn.Params[2].Name())), "ReadAt reads at off", bytesCall.Pos(), "", "ReadAt does not pass its off argument to Bytes")
 		} else {
-			r.Check(offArg.equal(linAtom(recv+".pos")), tc.name+" reads at pos", bytesCall.Pos(), "", tc.name+" does not read at the current position")
+			r.Check(inEntry && offArg.equal(linAtom(recv+"."+posF)), tc.name+" reads at pos", bytesCall.Pos(), "", tc.name+" does not read at the current position")
 		}
-		stores := storesToField(fn, recv+".pos")
-		if !tc.advance {
-			r.Check(len(stores) == 0, tc.name+" leaves pos unchanged", fn.Pos(), "", "io.ReaderAt must not move the position, but pos is assigned")
-		} else {
-			ok := len(stores) == 1
-			if ok {
-				d := linOf(stores[0].Val).add(linAtom(recv+".pos"), -1)
-				// d must be len(<data result of Bytes>)
-				ok = len(d.T) == 1 && d.C == 0
-				for a, c := range d.T {
-					if c != 1 || !strings.HasPrefix(a, "len(") {
-						ok = false
+		// is v the number of bytes the back end returned?
+		var isLenOfData func(v ssa.Value, chain []*ssa.Call, depth int) bool
+		isLenOfData = func(v ssa.Value, chain []*ssa.Call, depth int) bool {
+			if depth > 4 {
+				return false
+			}
+			v, n := valueThrough(stripConv(v), chain)
+			chain = chain[:n]
+			v = stripConv(v)
+			switch x := v.(type) {
+			case *ssa.Call:
+				if b, ok := x.Call.Value.(*ssa.Builtin); ok && b.Name() == "len" {
+					if ex, isEx := x.Call.Args[0].(*ssa.Extract); isEx && ex.Tuple == ssa.Value(bytesCall) && ex.Index == 0 {
+						return true
 					}
 				}
+			case *ssa.Extract:
+				c, ok := x.Tuple.(*ssa.Call)
+				if !ok {
+					return false
+				}
+				g := c.Call.StaticCallee()
+				if g == nil || len(g.Blocks) == 0 {
+					return false
+				}
+				nret := 0
+				for _, gb := range g.Blocks {
+					if ret, isRet := lastInstr(gb).(*ssa.Return); isRet {
+						nret++
+						if x.Index >= len(ret.Results) || !isLenOfData(ret.Results[x.Index], append(append([]*ssa.Call{}, chain...), c), depth+1) {
+							return false
+						}
+					}
+				}
+				return nret > 0
 			}
-			r.Check(ok, tc.name+" advances pos by len(data)", fn.Pos(), "", "pos is not advanced by exactly the number of bytes returned")
+			return false
 		}
-		if tc.setsErr {
-			es := storesToField(fn, recv+".err")
-			ok := len(es) == 1
+		var posStores []unitSite
+		var errStores []unitSite
+		for _, u := range unit {
+			if st, ok := u.in.(*ssa.Store); ok {
+				if isField(st.Addr, posF) {
+					posStores = append(posStores, u)
+				}
+				if isField(st.Addr, errF) {
+					errStores = append(errStores, u)
+				}
+			}
+		}
+		if !tc.advance {
+			r.Check(len(posStores) == 0, tc.name+" leaves pos unchanged", fn.Pos(), "", "io.ReaderAt must not move the position, but pos is assigned")
+		} else {
+			ok := len(posStores) == 1
 			if ok {
-				fs := blockFacts(es[0].Block())
-				_ = fs
-				// store must be under `r.err == nil`
+				st := posStores[0].in.(*ssa.Store)
 				ok = false
-				for p := es[0].Block().Idom(); p != nil; p = p.Idom() {
-					if iff, isIf := lastInstr(p).(*ssa.If); isIf {
-						if bo, isBo := iff.Cond.(*ssa.BinOp); isBo && bo.Op == token.EQL && canon(bo.X) == recv+".err" {
-							if c, isC := bo.Y.(*ssa.Const); isC && c.IsNil() && p.Succs[0] == es[0].Block() {
+				if bo, isBo := stripConv(st.Val).(*ssa.BinOp); isBo && bo.Op == token.ADD {
+					for _, pr := range [][2]ssa.Value{{bo.X, bo.Y}, {bo.Y, bo.X}} {
+						if u, isU := stripConv(pr[0]).(*ssa.UnOp); isU && u.Op == token.MUL && isField(u.X, posF) {
+							if isLenOfData(pr[1], posStores[0].chain, 0) {
 								ok = true
 							}
 						}
 					}
 				}
 			}
-			r.Check(ok, tc.name+" first error wins", fn.Pos(), "", "r.err is not assigned exactly once under `r.err == nil`")
+			r.Check(ok, tc.name+" advances pos by len(data)", fn.Pos(), "", "pos is not advanced by exactly the number of bytes returned")
+		}
+		if tc.setsErr {
+			ok := len(errStores) == 1
+			if ok {
+				st := errStores[0].in.(*ssa.Store)
+				// store must be under `r.err == nil` (in the frame where it is written)
+				ok = false
+				for _, a := range guardsAt(st.Block()) {
+					if a.op != token.EQL || a.x == nil || a.y == nil {
+						continue
+					}
+					for _, pr := range [][2]ssa.Value{{a.x, a.y}, {a.y, a.x}} {
+						if u, isU := pr[0].(*ssa.UnOp); isU && u.Op == token.MUL && isField(u.X, errF) && isNilConst(pr[1]) {
+							ok = true
+						}
+					}
+				}
+				// and the value stored is the back end's error
+				v, n := valueThrough(st.Val, errStores[0].chain)
+				if ex, isEx := v.(*ssa.Extract); !isEx || ex.Tuple != ssa.Value(bytesCall) || ex.Index != 1 || n != len(bytesChain) {
+					if !(isEx && ex.Tuple == ssa.Value(bytesCall) && ex.Index == 1) {
+						ok = false
+					}
+				}
+			}
+			r.Check(ok, tc.name+" first error wins", fn.Pos(), "", "the error field is not assigned exactly once, under `err == nil`, with the error the back end returned")
 		}
 	}
+}
+
+func recvNameOfType(t types.Type) string {
+	if p, ok := t.Underlying().(*types.Pointer); ok {
+		t = p.Elem()
+	}
+	if n, ok := t.(*types.Named); ok {
+		return n.Obj().Name()
+	}
+	return ""
 }
